@@ -1,5 +1,7 @@
 package ocode
 
+import "github.com/HobbyOSs/gosk/pkg/cpu"
+
 //go:generate enumer -type=OcodeKind -json -text
 type OcodeKind int
 
@@ -214,5 +216,6 @@ const (
 
 type Ocode struct {
 	Kind     OcodeKind
-	Operands []string // 数値や変数名など
+	Operands []string    // 数値や変数名など
+	BitMode  cpu.BitMode // mode in force where the statement was written (0 = unspecified)
 }
